@@ -217,6 +217,26 @@ func (f *Frame) modelCall(b *ssa.BasicBlock, st *State, fn *ssa.Function, fname 
 			c.axiom(r, eq(r, and(eqs...)))
 		}
 		return Val{t: r, typ: rt}, true
+	case "strings.Join":
+		// exact for zero and one element; otherwise an uninterpreted (deterministic) result
+		{
+			ek := "E:string"
+			tr.regKey(ek, []Sx{"Int", it.isort()}, "Str")
+			c.declFun("ext_strings.Join_0", []Sx{"Slice", "Str", "Str"}, "Str")
+			sl := args[0].t
+			first := sx("select", sx("select", tr.memGet(st, ek), sx("sl_arr", sl)), sx("sl_off", sl))
+			r := c.define(name, "Str", ite(eq(sx("sl_len", sl), it.iconst(0)), c.strLit(""), ite(eq(sx("sl_len", sl), it.iconst(1)), first, sx("ext_strings.Join_0", sl, args[1].t, first))))
+			v := Val{t: r, typ: rt}
+			st.guard = and(append([]Sx{st.guard}, tr.typeFacts(st, v)...)...)
+			c.note("strings.Join modelled exactly for slices of zero and one element")
+			return v, true
+		}
+	case "strings.Compare":
+		// -1, 0, +1 by the same (uninterpreted, strict) string order the comparison operators use
+		c.declFun("str_lt", []Sx{"Str", "Str"}, "Bool")
+		c.note("string ordering is an uninterpreted strict order (str_lt)")
+		r := c.define(name, it.isort(), ite(sx("str_lt", args[0].t, args[1].t), it.iconst(-1), ite(sx("str_lt", args[1].t, args[0].t), it.iconst(1), it.iconst(0))))
+		return Val{t: r, typ: rt}, true
 	case "(*regexp.Regexp).FindAllStringSubmatchIndex":
 		// Shape of the result (package documentation): one row per match, in increasing,
 		// non-overlapping order; a row holds pairs (start, end): pair 0 is the whole match with
